@@ -550,16 +550,47 @@ func (p *c13) keyUpdates(x *res, adapter string, ctx *runner.Ctx) {
 	for _, attr := range []string{"h", "r"} {
 		cases = append(cases, mk(attr, false)...)
 		cases = append(cases, mk(attr, true)...)
+		// a NESTED attribute that merely has the NAME of a key attribute (member of a map, of a map in a list; the
+		// member present or missing): the action concerns the document, the item's key attributes stay what they are
+		for _, nested := range []refmodel.Path{{{Name: "doc"}, {Name: attr}}, {{Name: "doc", Alias: "#d"}, {Name: attr, Alias: "#k"}}, {{Name: "emptydoc"}, {Name: attr}}, {{Name: "lst"}, {IsIdx: true, Idx: 0}, {Name: attr}}} {
+			tag := "nested-" + attr + "-" + nested.Shape()
+			cases = append(cases,
+				ku{"set-" + tag, &refmodel.Update{Actions: []refmodel.Action{{Kind: "SET", Path: nested, RHS: uv(":v")}}}, val.Item{":v": val.Num("5")}},
+				ku{"remove-" + tag, &refmodel.Update{Actions: []refmodel.Action{{Kind: "REMOVE", Path: nested}}}, nil},
+				ku{"add-" + tag, &refmodel.Update{Actions: []refmodel.Action{{Kind: "ADD", Path: nested, RHS: uv(":v")}}}, val.Item{":v": val.Num("1")}},
+				ku{"add-set-" + tag, &refmodel.Update{Actions: []refmodel.Action{{Kind: "ADD", Path: nested, RHS: uv(":v")}}}, val.Item{":v": val.SS("q")}},
+				ku{"delete-" + tag, &refmodel.Update{Actions: []refmodel.Action{{Kind: "DELETE", Path: nested, RHS: uv(":v")}}}, val.Item{":v": val.SS("q")}})
+		}
 	}
-	for _, c := range cases {
+	numeric := false
+	kv := func(s string) val.V {
+		if numeric {
+			return val.Num(map[string]string{"a": "7", "changed": "8"}[s])
+		}
+		return val.Str(s)
+	}
+	for ci := 0; ci < 2*len(cases); ci++ {
+		c := cases[ci%len(cases)]
+		// every case on a string-keyed and on a NUMBER-keyed table
+		numeric = ci >= len(cases)
+		spec = mon.SpecHashRange("tbl13")
+		if numeric {
+			spec.HashT, spec.RangeT = "N", "N"
+		}
 		for _, present := range []bool{true, false} {
 			cl, _, ds := freshClient(adapter, spec)
 			if ds != nil {
 				return
 			}
-			key := val.Item{"h": val.Str("a"), "r": val.Str("a")}
-			orig := val.Item{"h": val.Str("a"), "r": val.Str("a"), "v": val.Num("1")}
-			other := val.Item{"h": val.Str("changed"), "r": val.Str("a"), "v": val.Str("other")}
+			docs := func(it val.Item) val.Item {
+				it["doc"] = val.Map(map[string]val.V{"x": val.Str("y"), "h": val.Num("40")})
+				it["emptydoc"] = val.Map(map[string]val.V{"x": val.Str("y")})
+				it["lst"] = val.List(val.Map(map[string]val.V{"x": val.Str("y")}))
+				return it
+			}
+			key := val.Item{"h": kv("a"), "r": kv("a")}
+			orig := docs(val.Item{"h": kv("a"), "r": kv("a"), "v": val.Num("1")})
+			other := val.Item{"h": kv("changed"), "r": kv("a"), "v": val.Str("other")}
 			cl.Do(adapt.Op{Kind: adapt.OpPut, Table: spec.Name, Item: other})
 			if present {
 				cl.Do(adapt.Op{Kind: adapt.OpPut, Table: spec.Name, Item: orig})
@@ -573,7 +604,7 @@ func (p *c13) keyUpdates(x *res, adapter string, ctx *runner.Ctx) {
 			ctx.Trace("%s keyupdate %s", adapter, op.String())
 			got := cl.Do(op)
 			x.r.Evals++
-			x.fp(true, "keyupdate|%s|%s|%v", adapter, c.name, present)
+			x.fp(true, "keyupdate|%s|%s|%v|%v", adapter, c.name, present, numeric)
 			// whatever happened: every stored item's key attributes must equal the key it is retrievable under
 			scan := cl.Do(adapt.Op{Kind: adapt.OpScan, Table: spec.Name})
 			wit := map[string]interface{}{"adapter": adapter, "op": op, "present": present, "outcome": got, "scan": scan.Items}
@@ -599,7 +630,7 @@ func (p *c13) keyUpdates(x *res, adapter string, ctx *runner.Ctx) {
 			if g.Item != nil && (!val.Equal(g.Item["h"], key["h"]) || !val.Equal(g.Item["r"], key["r"])) {
 				x.viol("key-attributes-changed", actionOf(c.name), fmt.Sprintf("[%s] after update %q (class %s) GetItem(%s) returns an item with other key attributes: %s", adapter, txt, got.Class, key.Canon(), g.Item.Canon()), wit)
 			}
-			if o := cl.Do(adapt.Op{Kind: adapt.OpGet, Table: spec.Name, Key: val.Item{"h": val.Str("changed"), "r": val.Str("a")}}); !val.ItemsEqual(o.Item, other) {
+			if o := cl.Do(adapt.Op{Kind: adapt.OpGet, Table: spec.Name, Key: val.Item{"h": kv("changed"), "r": kv("a")}}); !val.ItemsEqual(o.Item, other) {
 				x.viol("key-update-hit-other-item", actionOf(c.name), fmt.Sprintf("[%s] update %q changed another item: %s", adapter, txt, o.Item.Canon()), wit)
 			}
 		}
